@@ -126,7 +126,17 @@ def _assignify(body: list[ast.stmt], target: ast.AST | None) -> list[ast.stmt] |
                 return None
             if target is not None:
                 val = st.value if st.value is not None else ast.Constant(None)
-                out.append(ast.Assign([copy.deepcopy(target)], val, lineno=getattr(st, "lineno", 0)))
+                split = False
+                if isinstance(target, ast.Tuple) and isinstance(val, ast.Tuple) and len(val.elts) == len(target.elts) and all(isinstance(t, ast.Name) for t in target.elts):
+                    tnames = [t.id for t in target.elts]  # type: ignore[attr-defined]
+                    # element-wise is the same as tuple assignment when no value reads a target assigned before it
+                    split = all(not ({n.id for n in ast.walk(v) if isinstance(n, ast.Name)} & set(tnames[:i])) for i, v in enumerate(val.elts))
+                if split:
+                    for t, v in zip(target.elts, val.elts):  # type: ignore[union-attr]
+                        if not (isinstance(v, ast.Name) and isinstance(t, ast.Name) and v.id == t.id):
+                            out.append(ast.Assign([copy.deepcopy(t)], v, lineno=getattr(st, "lineno", 0)))
+                else:
+                    out.append(ast.Assign([copy.deepcopy(target)], val, lineno=getattr(st, "lineno", 0)))
             elif st.value is not None and any(isinstance(x, ast.Call) for x in ast.walk(st.value)):
                 out.append(ast.Expr(st.value))
             return out
@@ -149,13 +159,13 @@ def _assignify(body: list[ast.stmt], target: ast.AST | None) -> list[ast.stmt] |
                     r = _assignify(rest, target)
                     if r is None:
                         return None
-                    out.append(ast.If(st.test, b or [ast.Pass()], (o + r) or [ast.Pass()]))
+                    out.append(_mk_if(st.test, b, o + r))
                     return out
                 if else_ends and not body_ends:
                     r = _assignify(rest, target)
                     if r is None:
                         return None
-                    out.append(ast.If(st.test, (b + r) or [ast.Pass()], o or [ast.Pass()]))
+                    out.append(_mk_if(st.test, b + r, o))
                     return out
                 return None
             # guard clause: if c: ...return   <rest>
@@ -163,7 +173,7 @@ def _assignify(body: list[ast.stmt], target: ast.AST | None) -> list[ast.stmt] |
                 r = _assignify(rest, target) if rest else []
                 if r is None:
                     return None
-                out.append(ast.If(st.test, b or [ast.Pass()], r))
+                out.append(_mk_if(st.test, b, r))
                 return out
             return None
         if isinstance(st, ast.Try) and _returns_in([st]) and not st.finalbody and not rest:
@@ -189,6 +199,13 @@ def _assignify(body: list[ast.stmt], target: ast.AST | None) -> list[ast.stmt] |
     if target is not None:
         out.append(ast.Assign([copy.deepcopy(target)], ast.Constant(None), lineno=0))
     return out
+
+
+def _mk_if(test: ast.AST, body: list[ast.stmt], orelse: list[ast.stmt]) -> ast.If:
+    """if not X: A else: B  ->  if X: B else: A (when both arms exist), so guard clauses read like the positive form"""
+    if isinstance(test, ast.UnaryOp) and isinstance(test.op, ast.Not) and body and orelse:
+        return ast.If(test.operand, orelse, body)
+    return ast.If(test, body or [ast.Pass()], orelse)
 
 
 def _simple(e: ast.AST) -> bool:
@@ -310,8 +327,14 @@ class _Inliner:
                 tmp = ast.Name(f"{n}{tag}", ast.Load())
                 pre.append(ast.Assign([ast.Name(f"{n}{tag}", ast.Store())], a, lineno=getattr(st, "lineno", 0)))
                 mapping[n] = tmp
+        target_names: set[str] = set()
+        if isinstance(st, (ast.Assign, ast.AnnAssign)) and st.value is call:
+            tg = st.targets[0] if isinstance(st, ast.Assign) else st.target
+            target_names = {n.id for n in ast.walk(tg) if isinstance(n, ast.Name)}
+            arg_names = {n.id for a in list(call.args) + [k.value for k in call.keywords] for n in ast.walk(a) if isinstance(n, ast.Name)}
+            target_names -= arg_names
         for n in assigned:
-            if n not in mapping:
+            if n not in mapping and n not in target_names:
                 mapping[n] = ast.Name(f"{n}{tag}", ast.Load())
         ren = _Rename(mapping)
         hbody = [ren.visit(s) for s in hbody]
@@ -334,12 +357,18 @@ class _Inliner:
             if isinstance(st, ast.Assign) and len(st.targets) != 1:
                 return None
             tmpname = f"__ret{tag}"
+            if isinstance(tgt, ast.Tuple) and all(isinstance(t, ast.Name) for t in tgt.elts):
+                b2 = _assignify(hbody, tgt)
+                if b2 is not None:
+                    return pre + b2
             b = _assignify(hbody, ast.Name(tmpname, ast.Store()))
             if b is None:
                 return None
             # collapse `tmp = v` as last statement straight into the target
             if b and isinstance(b[-1], ast.Assign) and isinstance(b[-1].targets[0], ast.Name) and b[-1].targets[0].id == tmpname:
                 last = b.pop()
+                if isinstance(tgt, ast.Name) and isinstance(last.value, ast.Name) and last.value.id == tgt.id:
+                    return pre + b
                 return pre + b + [ast.Assign([tgt], last.value, lineno=getattr(st, "lineno", 0))]
             return pre + b + [ast.Assign([tgt], ast.Name(tmpname, ast.Load()), lineno=getattr(st, "lineno", 0))]
         # E. nested in a larger expression: hoist
